@@ -355,6 +355,10 @@ theorem no_parent_found_ok {S : Type} : findParentSnapshot (S := S) false false 
     findParentSnapshot (S := S) false true (some none) = .error ∧
     (∀ s : S, ∀ e, findParentSnapshot false e (some (some s)) = .parent s) := ⟨rfl, rfl, fun _ _ => rfl⟩
 
+/-- the option mapping of the backup command: `--ignore-inode` switches the ctime check off too -/
+theorem cliFlags_spec (c i : Bool) : cliFlags c i = ⟨c || i, i⟩ := by
+  cases c <;> cases i <;> rfl
+
 /-! ### T1 -/
 
 /-- the first switch of `fileChanged` and the comparisons that follow, as transcribed -/
